@@ -9,12 +9,17 @@ func FixedEnv() *Env {
 	e.ExtBasic = []*Decl{num}
 	ek := &Decl{Name: "Key", Pkg: x, IsStruct: true, Fields: []Field{{Name: "K0", Type: B("int")}, {Name: "k1", Type: B("string")}}}
 	e.ExtKeys = []*Decl{ek}
-	e0 := &Decl{Name: "E0", Pkg: x, IsStruct: true, Fields: []Field{{Name: "F0", Type: B("int")}, {Name: "f1", Type: SliceOf(B("string"))}, {Name: "f2", Type: PtrTo(B("float64"))}}}
+	// an unexported field of E0 has a type of a third package that nothing else mentions: generated code spells
+	// that type only where it reaches the field (plugins that skip the field must not import the package)
+	z := &ExtPkg{Dir: "x/third", Name: "third"}
+	dur := &Decl{Name: "D", Pkg: z, Under: B("int64")}
+	e.ExtBasic = append(e.ExtBasic, dur)
+	e0 := &Decl{Name: "E0", Pkg: x, IsStruct: true, Fields: []Field{{Name: "F0", Type: B("int")}, {Name: "f1", Type: SliceOf(B("string"))}, {Name: "f2", Type: PtrTo(B("float64"))}, {Name: "f3", Type: NamedT(dur)}}}
 	// a flat struct and a second imported package whose struct only uses ext1's types in positions where
 	// generated code need not spell them (so derived.gen.go must not import ext1 on their account)
 	pt := &Decl{Name: "Pt", Pkg: x, IsStruct: true, Fields: []Field{{Name: "X", Type: B("int")}, {Name: "Y", Type: B("int")}}}
 	y := &ExtPkg{Dir: "x/other", Name: "other"}
-	e.Ext = append(e.Ext, y)
+	e.Ext = append(e.Ext, y, z)
 	o0 := &Decl{Name: "O0", Pkg: y, IsStruct: true, Fields: []Field{{Name: "A", Type: B("int")}, {Name: "N", Type: NamedT(num)}, {Name: "P", Type: NamedT(pt)}, {Name: "S", Type: SliceOf(B("string"))}}}
 	e.ExtStructs = []*Decl{e0, pt, o0}
 	myInt := &Decl{Name: "MyInt", Under: B("int")}
